@@ -1030,8 +1030,9 @@ def oracle(ctx: Ctx, sc: dict, res: dict) -> dict:
     # ---- O5: an instance that exited on its own is not restarted within the incarnation ----------------------------
     for key, lst in by_key.items():
         for k, a in enumerate(lst):
-            if a["own_exit"] and lst[k + 1:]:
-                fail(f"{key[2]} of {key[1]} exited on its own at t={a['t_end']} and was started again at t={lst[k + 1]['t_spawn']}",
+            later = [b for b in lst[k + 1:] if a["seq_end"] is not None and b["seq_spawn"] > a["seq_end"]]
+            if a["own_exit"] and later:
+                fail(f"{key[2]} of {key[1]} exited on its own at t={a['t_end']} and was started again at t={later[0]['t_spawn']}",
                      {"site": "daemons.spawn_daemons", "shape": "restarted after exiting on its own"})
     for key, cs in calls_by.items():
         h = hs.get(key[2])
